@@ -123,7 +123,7 @@ def run(ctx):
                        "the other unit's origin expressed in the source unit (enumerated windows) and rapidcheck draws (windows, wide values, multiples giving integral "
                        "results); oracle: exact rational (x*mU + oU - oV)/mV in 128 bits, asserted for coerce_in<T>/as<T> whenever the result is an integer in range(T) "
                        "and the model intermediates (x and the origin displacement in the finest common unit) fit the calculation rep with two bits to spare; 6 "
-                       "comparisons = sign of the exact position difference; (p - q) and p +- d checked against exact displacements; floating reps with explicit ulp "
+                       "comparisons = sign of the exact position difference; (p - q) and p +- d checked against exact displacements; floating reps with explicit ulp (conversion: 4 ulp of the calculation rep on the intermediates + 2 ulp of a floating target on the result; narrowing double->float instances with origins beyond 2^24) "
                        "tolerances; 17 negative compile probes with positive twins (point+point, scalar*point, point*point, -point, quantity-point, ZERO, point<->quantity "
                        "mix-ups, maker misuse) over 5 units x 5 reps. Non-trivial: different origin or scale and x != 0; distinct by (instance, x[, y]).")
     ctx.assumptions += ["assertions are gated by representability of the result and of the intermediates with a two-bit margin (the statement's own proviso)",
